@@ -28,6 +28,11 @@ def task_{i}():
                             "import sys; s = sys.stdout if %r == 'out' else sys.stderr; s.write(%r); s.flush()" % (stream, text)],
                            check=True)
     sys.stdout.flush(); sys.stderr.flush()
+    if {restore!r}:
+        # a task that ends with the interpreter's original stream objects in place (what code does after a
+        # temporary redirection of its own): it is the capture's business to be in place again for the next task
+        sys.stdout = sys.__stdout__
+        sys.stderr = sys.__stderr__
     if {fail!r}:
         raise RuntimeError("boom")
 '''
@@ -58,15 +63,18 @@ def run(case, base):
             src.append(f"@pytask.task(produces=__import__('pathlib').Path(__file__).parent / 'o{i}.txt')")
         # in fd mode Python-level and descriptor-level writes end in one capture file: their order must be kept
         # without any flush; in the other modes the process's own buffering decides the order on the real stream
-        body = TASK.format(i=i, writes=[tuple(w) for w in t["writes"]], fail=False, sync=case["method"] != "fd")
+        body = TASK.format(i=i, writes=[tuple(w) for w in t["writes"]], fail=False, sync=case["method"] != "fd", restore=bool(t.get("restore")))
         # the product must exist for a successful task
         # @task(produces=path): the returned string is stored in the product
         body = body.replace("    if False:\n        raise RuntimeError(\"boom\")\n",
                             f"    if {t['fail']!r}:\n        raise RuntimeError(\"boom\")\n    return 'x'\n")
         src.append(body)
     (proj / "task_cap.py").write_text("\n".join(src))
+    import os
+    env = dict(os.environ)
+    env.pop("PYTHONUNBUFFERED", None)       # buffering as in an ordinary interpreter
     p = subprocess.run([sys.executable, "-c", DRIVER.format(proj=str(proj), method=case["method"])],
-                       capture_output=True, cwd=proj)
+                       capture_output=True, cwd=proj, env=env)
     out = {"stdout": p.stdout.decode("utf-8", "replace"), "stderr": p.stderr.decode("utf-8", "replace"), "rc": p.returncode}
     f = proj / "result.json"
     out["result"] = json.loads(f.read_text()) if f.exists() else None
